@@ -1,4 +1,4 @@
-"""F15 (C14, C08): Node.get_value() converts node text with int()/float(); PyYAML's constructors accept more spellings.
+"""C14, C08 (fixed by 0b2c66a): get_value() on YAML number spellings that int()/float() do not read.
 A savorize that reads an attribute with get_value() makes load raise ValueError; matches() in
 remove_attributes_with_default_values fails on a float attribute holding inf (represented as .inf)."""
 import yaml, yatiml
